@@ -49,7 +49,7 @@ THEOREMS = [
     "Verif.C11.mkModel_ok_iff",
 ]
 RULE = (
-    "corpus (7 representative + the open finding F-C11-1) + exhaustive option matrix (hydro x axial x distance{None, at the "
+    "corpus (8 representative + the open finding F-C11-1) + exhaustive option matrix (hydro x axial x distance{None, at the "
     "validity limit, far} x viscosity{given, derived from T} x fast sensor x drag override x fixed diode{none, f, alpha, both}) "
     "with two (fc, D, errors) each for passive results, one spectrum value and (non-axial) one active calibration on synthetic "
     "signals + seeded random configurations over the property's box (bead 0.2-8 um incl. both ends, 10-60 C and the "
@@ -62,8 +62,13 @@ RULE = (
     "diode values, wrong parameter counts). EXPLORATION (not proof): fit_power_spectrum on synthetic spectra inside the "
     "conditioning box 3 f_min <= fc <= 0.3 f_diode (noise-free: recovery to 1e-7; gamma noise of the block size: 10 sigma "
     "+ 0.1 %, chi^2/dof ~ 1; block sizes 20-2000; bias correction on/off), calibrate_force on synthetic time series "
-    "(passive and active, public path incl. drag=, fixed_diode=, fixed_alpha=), estimate_driving_input_parameters on "
-    "noisy sinusoids. Non-trivial: the model was constructed and every reported number is finite (identities evaluated), "
+    "(passive and active, public path incl. axial=, drag=, fixed_diode=, fixed_alpha=; axial drawn with probability 1/2 for "
+    "non-hydrodynamic passive runs), estimate_driving_input_parameters on noisy sinusoids. PUBLIC ENTRY POINT, exhaustive "
+    "(deterministic, independent of the seed): lk.calibrate_force over hydro x axial x distance{None, at the validity "
+    "limit, far} x transferred drag x filter{diode, fast sensor, fixed f_diode, fixed alpha, both} passive and (lateral, no "
+    "transferred drag) active, on well-conditioned 1 s records (thorough: x bead {1.2, 4.4 um} x viscosity {given, "
+    "derived}); the model it built is compared cell by cell (drag, correction factor, kappa, Rd, Rf, errors) and hydro + "
+    "axial must be rejected there as by the constructor. Non-trivial: the model was constructed and every reported number is finite (identities evaluated), "
     "a routing case, a non-singular analytical fit, a rejection of a configuration outside the documented domain, a "
     "completed exploration fit."
 )
@@ -439,9 +444,14 @@ def impl_calib(c):
     import lumicks.pylake as lk
 
     o, fixed = c["o"], c.get("fixed")
-    m0 = build_model(o, fixed)
     names = fitted_par_names(c)
     free = [v for nm, v in zip(("f_diode", "alpha"), (c["fdiode"], c["alpha"])) if nm in names]
+    try:
+        # the generating model is built directly (constructor); the model under test is the one calibrate_force builds
+        m0 = build_model(o, fixed)
+    except Exception:  # noqa: BLE001 — a configuration the constructor rejects: calibrate_force has to reject it too,
+        # it is handed a plain Lorentzian x diode record so that a (wrongly) accepted configuration is fitted and reported
+        m0, free = build_model(base_opts(d=o["d"] if o["d"] >= 0.01 else 1.0), None), [c["fdiode"], c["alpha"]]
     volts = synth_volts(c, m0, free)
     kw = dict(
         bead_diameter=o["d"],
@@ -476,6 +486,8 @@ def impl_calib(c):
         "pars": [float(r.results[nm].value) for nm in names],
         "epars": [float(r.results["err_" + nm].value) for nm in names],
         "nblock_used": int(r.ps_data.num_points_per_block),
+        "fixed_reported": [None if v is None else float(v) for v in (r.diode_frequency, r.diode_relaxation_factor)],
+        "n_fitted": len(r.fitted_params),
     }
     if a is not None:
         info["meas"] = measured(r.model)
@@ -563,9 +575,12 @@ def ops(case):
         ]
     if k == "calib":
         info = _cache.get(("calib", case_key(case)))
-        if info is None:
-            return ["c11.fitfailed"]
         o, fixed = case["o"], case.get("fixed")
+        if info is None:
+            # calibrate_force raised: the model must reject the same configuration with the same error
+            info = {"fc": case["fc"], "D": case["D"], "efc": 1.0, "eD": 1.0, "pars": default_pars(o, fixed)}
+            a = case.get("a") or {"f": 1.0, "amp_um": 1.0}
+            info["meas"] = {"f": a["f"], "amp": a["amp_um"] * 1e-6, "amp_err": 0.0, "maxP": 1.0, "df": 1.0, "perr": 0.0}
         if case.get("a") is None:
             return [
                 f"c11.passive {opt_tokens(o)} {enc_float(info['fc'])} {enc_float(info['D'])} {enc_float(info['efc'])} "
@@ -923,6 +938,10 @@ def oracle_fit(c, ia):
 def oracle_calib(c, ia):
     """the identities on what lk.calibrate_force reports + EXPLORATION of the recovery through the public path"""
     info = _cache.get(("calib", case_key(c)))
+    want = o_valid(c["o"], c.get("fixed"))
+    if want is not None:
+        # the entry point builds the model from its keyword arguments: what the constructor rejects, it rejects
+        return None if ia[0] == want else f"calibrate_force: validation: configuration must be rejected with {want}, implementation answered {ia[0][:80]}"
     if info is None or not ia[0].startswith("ok"):
         return f"calibrate_force failed inside the conditioning box: {ia[0]}"
     sub = dict(c)
@@ -931,6 +950,14 @@ def oracle_calib(c, ia):
     clause = _oracle(sub, ia, sub["op"])
     if clause:
         return "calibrate_force: " + clause
+    # fixed diode parameters stay fixed: reported unchanged, and only fc, D and the free ones were fitted
+    fixed = c.get("fixed")
+    if fixed is not None:
+        for want, got, nm in zip(fixed, info["fixed_reported"], ("f_diode", "alpha")):
+            if want is not None and (got is None or not rel_ok(got, want)):
+                return f"calibrate_force: fixed-diode: {nm} fixed at {want} but reported {got}"
+    if info["n_fitted"] != 2 + len(info["names"]):
+        return f"calibrate_force: {info['n_fitted']} fitted parameters, expected fc, D and {info['names']}"
     n = info["nblock_used"]
     truth = {"fc": c["fc"], "D": c["D"], "f_diode": c["fdiode"], "alpha": c["alpha"]}
     est = {"fc": info["fc"], "D": info["D"]}
@@ -992,7 +1019,7 @@ def nontrivial(case, ia):
     if k == "fit":
         return ia[1].startswith("ok")
     if k == "calib":
-        return ia[0].startswith("ok")
+        return ia[0].startswith("ok") or o_valid(case["o"], case.get("fixed")) is not None
     if k == "drive":
         return True
     return False
@@ -1055,6 +1082,11 @@ def extra_coverage(results):
         "drive_estimates": sum(1 for r in results if r["case"]["op"] == "drive"),
         "calibrate_force_runs": sum(1 for r in results if r["case"]["op"] == "calib"),
         "calibrate_force_active": sum(1 for r in results if r["case"]["op"] == "calib" and r["case"].get("a") is not None),
+        "calibrate_force_option_matrix": sum(1 for r in results if r["case"].get("stream") == "matrix-calibrate_force"),
+        "calibrate_force_axial_near_surface": sum(
+            1 for r in results if r["case"]["op"] == "calib" and r["case"]["o"]["axial"] and r["case"]["o"]["dist"] and not r["case"]["o"]["hydro"]
+        ),
+        "calibrate_force_rejections": sum(1 for r in results if r["case"]["op"] == "calib" and not r["impl"][0].startswith("ok")),
     }
     anl = [r for r in results if r["case"]["op"] == "anl"]
     br = {"a/b>0,b>0 (regular)": 0, "a/b<=0 (fc fall-back)": 0, "b<=0 (D fall-back)": 0, "singular": 0}
@@ -1284,6 +1316,12 @@ def calib_case(rng, stream, quick, active):
         o["drag"] = None
         if o["dist"] is not None and not o["hydro"]:
             o["dist"] = max(o["dist"], 0.5 * o["d"] * 1.001)
+    elif not o["hydro"]:
+        # the rarely used option gets its full share here: this is the only stream in which calibrate_force (not the
+        # harness) passes it on to the model
+        o["axial"] = rng.chance(0.5)
+        if o["axial"] and o["dist"] is not None:
+            o["dist"] = max(o["dist"], 0.5 * o["d"] * 1.001)
     rate = 78125.0
     dur = rng.uniform(1.0, 2.0) if quick else rng.uniform(2.0, 6.0)
     n = 2 * int(rate * dur / 2)
@@ -1304,6 +1342,44 @@ def calib_case(rng, stream, quick, active):
             "guess": f + rng.uniform(-2.0, 2.0),
         }
     return c
+
+
+def calib_matrix(quick):
+    """EVERY combination of the model options through the public entry point lk.calibrate_force (the function builds the
+    model from its own keyword arguments, so a model constructed directly says nothing about it): hydro x axial x surface
+    distance {none, at the validity limit, far} x transferred drag x filter {diode, fast sensor, fixed f_diode, fixed alpha,
+    both fixed} (x bead size x viscosity {given, derived} in the thorough tier), passive and active, on deterministic
+    well-conditioned 1 s records (independent of VERIF_SEED).  hydro + axial must be rejected (NotImplementedError)."""
+    rate, n = 78125.0, 78124
+    truth = {"fc": 1500.0, "D": 0.8, "fdiode": 12000.0, "alpha": 0.45}
+    filters = (("diode", False, None), ("fast", True, None), ("fd", False, [12000.0, None]), ("al", False, [None, 0.45]), ("both", False, [12000.0, 0.45]))
+    idx = 0
+    for d, visc in itertools.product((1.2,) if quick else (1.2, 4.4), (0.0009,) if quick else (0.0009, None)):
+        for active, hydro, axial, dk, drag, (_, fast, fixed) in itertools.product(
+            (False, True), (False, True), (False, True), (0, 1, 2), (None, 1.12e-8 * d / 1.2), filters
+        ):
+            if active and (axial or drag is not None):
+                continue  # refused by calibrate_force itself; not part of the property
+            idx += 1
+            lim = (0.75 if hydro else 0.5) * d
+            dist = None if dk == 0 else (lim * (1.0 + (1e-3 if (axial or active) else 1e-6)) if dk == 1 else 2.5 * d)
+            o = base_opts(d=d, visc=visc, temp=25.0, hydro=hydro, axial=axial, dist=dist, fast=fast, drag=drag)
+            c = {
+                "stream": "matrix-calibrate_force",
+                "op": "calib",
+                "o": o,
+                "fixed": None if fixed is None else list(fixed),
+                **truth,
+                "nblock": 100,
+                "rate": rate,
+                "n": n,
+                "subseed": 1000 + idx,
+            }
+            if active:
+                f = 37.0
+                thermal = truth["D"] / (math.pi**2 * (f * f + truth["fc"] ** 2))
+                c["a"] = {"f": f, "amp_um": 0.5, "phase": 1.0, "volts_amp": math.sqrt(2 * (f / 5) * thermal * 1e3), "guess": 36.0}
+            yield c
 
 
 def drive_case(rng, stream, quick):
@@ -1426,6 +1502,7 @@ def cases(tier, rng):
     r = rng.fork("drive")
     for _ in range(30 if quick else 400):
         yield drive_case(r, "exploration-drive", quick)
+    yield from calib_matrix(quick)
     r = rng.fork("calib")
-    for i in range(8 if quick else 120):
+    for i in range(16 if quick else 160):
         yield calib_case(r, "exploration-calibrate_force", quick, active=(i % 3 == 2))
